@@ -53,7 +53,13 @@ def run(chk, tier):
         if case.weights is not None and case.weights["kind"] == "scalar":
             case.weights = None
         pr = pl.PoolRun(env, kind, case, names, core.SEED + q)
-        fresh = pr.fresh_serial()
+        try:
+            fresh = pr.fresh_serial()
+        except Exception as e:  # noqa
+            # the plain serial evaluation of this cube fails: what it should have returned is the business of the
+            # properties about values (C02-C05, C13, C18); there is no reference to compare schedules with
+            chk.note("other-property=C03 serial reference evaluation raised %s: %s" % (type(e).__name__, str(e)[:120]))
+            continue
         c16.record_outputs(env, OWN, pr, fresh)
         T = pr.T
         plans = [("serial", 0, frozenset([i])) for i in range(1, T + 1)] + [("serial", 0, frozenset())]
